@@ -443,7 +443,7 @@ def insert_loop_contracts(body, loops):
                 raise ExtractionError("do { } not followed by while")
             po = mw.end() - 1
             pc = match_close(body, po, '(', ')')
-            events.append((m.start(), ordinal, pc + 1, 'do', bc + 1))
+            events.append((m.start(), ordinal, pc + 1, 'do', m.end()))
             ordinal += 1
             pos = m.end()
         else:
@@ -462,9 +462,10 @@ def insert_loop_contracts(body, loops):
             ordinal += 1
             pos = m.end()
     ins = []
-    for (_, o, off, kw, _x) in events:
+    for (_, o, off, kw, do_off) in events:
         if o in loops:
-            ins.append((off, ' ' + ' '.join(loops[o].split()) + ' '))
+            # CBMC wants the clauses of a do-while right after 'do', of for/while after the ')'
+            ins.append((do_off if kw == 'do' else off, ' ' + ' '.join(loops[o].split()) + ' '))
     missing = set(loops) - {e[1] for e in events}
     if missing:
         raise ExtractionError("loop ordinals %s not found (body has %d loops)" % (sorted(missing), len(events)))
@@ -497,7 +498,8 @@ def add_signal_points(body, macro='VP_SIGNAL_POINT();'):
             ls = max(body.rfind(';', 0, i), body.rfind('{', 0, i), body.rfind('}', 0, i)) + 1
             stmt = body[ls:i].strip()
             if not stmt.startswith('return') and not stmt.startswith('VP_THROW') and stmt != '' \
-               and not stmt.startswith('break') and not stmt.startswith('continue') and not stmt.startswith('goto'):
+               and not stmt.startswith('break') and not stmt.startswith('continue') and not stmt.startswith('goto') \
+               and not stmt.startswith('VP_HOOK') and not stmt.startswith('MP_VERIF_SIGNAL_POINT'):
                 out.append(' ' + macro)
                 cnt += 1
         i += 1
@@ -533,7 +535,7 @@ class Fn:
 
     def __init__(self, file, anchor, proto, contract='', loops=None, subst=(), ordinal=0,
                  nmatches=None, skip=(), pre='', post='', block_end=None, signal_points=False,
-                 label=None, inst=None, wrap_body=True, expect_fired=None):
+                 label=None, inst=None, wrap_body=True, expect_fired=None, drop_init=False):
         self.file = file
         self.anchor = anchor
         self.proto = proto
@@ -551,6 +553,7 @@ class Fn:
         self.inst = inst         # instantiation description for the evidence
         self.wrap_body = wrap_body
         self.expect_fired = expect_fired or {}
+        self.drop_init = drop_init
         self.info = None
 
     def cname(self):
@@ -567,7 +570,7 @@ class Fn:
         rules = Rules()
         orig = body
         init = ''
-        if ex.init_list:
+        if ex.init_list and not self.drop_init:
             init = init_list_to_stmts(ex.init_list)
             rules._count('R20', 1)
         if init:
@@ -582,7 +585,7 @@ class Fn:
                 raise ExtractionError("%s:%d %s: substitution /%s/ fired %d times, expected %s"
                                       % (self.file, ex.line, self.cname(), pat, n,
                                          'at least 1' if expect is None else expect))
-            sub_report.append({'pattern': pat, 'replacement': repl, 'fired': n})
+            sub_report.append({'pattern': pat, 'replacement': repl if isinstance(repl, str) else '<generated>', 'fired': n})
         body = rules.apply(body, self.skip)
         for r, cnt in self.expect_fired.items():
             if rules.fired.get(r, 0) != cnt:
@@ -612,6 +615,7 @@ class Fn:
             'spec_substitutions': sub_report,
             'loops_in_body': nloops, 'loops_annotated': sorted(self.loops),
             'signal_points': nsig,
+            'init_list_dropped': ' '.join(ex.init_list.split()) if (ex.init_list and self.drop_init) else '',
         }
         return text
 
